@@ -53,6 +53,13 @@ def simplify_power(expression):
     return expression
 
 
+def simplify_safe_power(expression):
+    """simplification of safe power operators: |base|**exponent"""
+    base, exponent = expression.operands
+    abs_base = Expression(ABS, [base])
+    return simplify_power(Expression(POWER, [abs_base, exponent]))
+
+
 def _simplify_constant_power(base, exponent):
     if exponent.is_one():
         return base
@@ -332,7 +339,7 @@ SIMPLIFICATION_FUNCTIONS = {
     EXPONENTIAL: simplify_exponential,
     ABS: no_simplification,
     SQRT: no_simplification,
-    SAFE_POWER: simplify_power,
+    SAFE_POWER: simplify_safe_power,
     SINH: simplify_sinh,
     COSH: simplify_cosh
 }
